@@ -109,7 +109,11 @@ func c13Set(r *rand.Rand) Case {
 			payload = nullSome(r, deepCopy(tm)).(map[string]any)
 		}
 	}
-	// root-level writes go through AddValueAt(k, v) per payload key: keys are plain here
+	// root-level writes go through AddValueAt(k, v) per payload key under replace and through AddValue(k, v) under
+	// merge: a payload member whose name has a dot is a path in the first case and a name in the second
+	if path == "" && r.Intn(5) == 0 {
+		payload["zz.dot"] = []any{true, "v", 7}[r.Intn(3)]
+	}
 	strat := []string{"", "merge", "replace", "bogus"}[r.Intn(10)%4]
 	if r.Intn(10) < 7 {
 		strat = []string{"", "merge", "replace"}[r.Intn(3)]
@@ -379,6 +383,8 @@ func c13Patch(r *rand.Rand) Case {
 	o.nulls = false
 	if r.Intn(4) == 0 { // member names ending in the characters a pointer escapes
 		o.keys = []string{"a", "v2/", "tmp~", "b", "~", "k1", "/"}
+	} else if r.Intn(5) == 0 { // ... or holding letters outside ASCII
+		o.keys = []string{"a", "straße", "größe", "名前", "k1", "é"}
 	}
 	data := genDoc(r, o)
 	rp := c09GenOp(r, data, o)
@@ -808,6 +814,18 @@ func c13RoundTrip(r *rand.Rand, idx int) Case {
 	data := genDoc(r, o)
 	sub := genDoc(r, o)
 	data["src"] = sub
+	// what the destination holds beforehand (nothing, a mapping with members of its own, a list, a leaf) is replaced
+	switch r.Intn(4) {
+	case 0:
+		old := deepCopy(sub).(map[string]any)
+		old["only-in-the-old-value"] = map[string]any{"stale": true}
+		old["old-list"] = []any{1, 2, 3, 4}
+		data["dst"] = map[string]any{"copy": old, "sibling": "kept"}
+	case 1:
+		data["dst"] = map[string]any{"copy": []any{"old", "list"}}
+	case 2:
+		data["dst"] = map[string]any{"copy": "old leaf"}
+	}
 	format := []string{"yaml", "json"}[r.Intn(2)]
 	file := filepath.Join(c13Dir(), fmt.Sprintf("rt%d.%s", idx, format))
 	defer os.Remove(file)
